@@ -1,0 +1,10 @@
+//go:build verif
+
+package carddav
+
+// VerifResourceTypeAtPath runs the unexported resourceTypeAtPath with the
+// given (already slash-trimmed) prefix. Verification harness only.
+func VerifResourceTypeAtPath(prefix, reqPath string) int {
+	b := backend{Prefix: prefix}
+	return int(b.resourceTypeAtPath(reqPath))
+}
